@@ -153,12 +153,8 @@ def step (_ : Unit) (line : String) : Unit × String :=
             | none => "unmodelled"
           else
           let polys := chunks k' n' cs
-          -- member j's key: sum over dealers d of ShareSeckey(coeffs_d, id_j)
-          let msk : List (Option Nat) := ids.map (fun x =>
-            match polys.mapM (fun cs => Shamir.shareSeckey r cs x) with
-            | some shares => Shamir.aggregateSeckeys r shares
-            | none => none)
-          match msk.mapM id, Shamir.aggregateSeckeys r (polys.map (fun cs => cs.headD 0)) with
+          let msk : List (Option Nat) := ids.map (Shamir.memberKey r polys)
+          match msk.mapM id, Shamir.groupSecret r polys with
           | some msks, some gsk =>
             let es : List (Nat × Option G1.Point) := arr.map (fun a =>
               (ids.getD a 0, some (G1.mul curve h (msks.getD a 0))))
